@@ -3,6 +3,8 @@ EXTENDS Volatile, Json
 
 \* constant values that a .cfg file cannot express (tuples)
 RootsMC   == {<<"slice", 4, 0, 1>>, <<"slice", 5, 1, 2>>, <<"region", 4, 0, 3>>, <<"slice", 0, 0, 1>>}
+RootsMCT  == {<<"slice", 3, 1, 2>>, <<"region", 3, 0, 1>>}
+TgtsMCT   == {<<0, 2>>, <<1, 2>>}
 TgtsMC    == {<<0, 2>>, <<1, 3>>, <<2, 2>>, <<0, 0>>}
 RootsGenA == {<<"slice", 8, 0, 1>>, <<"slice", 6, 1, 3>>, <<"region", 5, 0, 2>>, <<"slice", 0, 0, 1>>, <<"slice", 1, 3, 7>>}
 RootsGenB == {<<"slice", 9, 2, 4>>, <<"region", 8, 0, 1>>, <<"slice", 3, 7, 1>>, <<"slice", 12, 4, 5>>}
